@@ -345,7 +345,11 @@ def r07_6(run):
         for t in (s.targets if not isinstance(s, ast.AugAssign) else [s.target]))]
     for s in others:
         ns = cfgn.node_for(s)
-        tests = [n for n, st in cfgn.stmt.items() if cfgn.label[n] == "If" and isinstance(st, ast.Name) and st.id in private]
+        def _flag_conj(st):  # the private flag alone, or as one conjunct of the guard
+            parts = st.values if isinstance(st, ast.BoolOp) and isinstance(st.op, ast.And) else [st]
+            return any(isinstance(p_, ast.Name) and p_.id in private for p_ in parts)
+
+        tests = [n for n, st in cfgn.stmt.items() if cfgn.label[n] == "If" and _flag_conj(st)]
         ok = any(cfgn.edge_dominates(t, "true", ns) for t in tests)
         run.ob("R07.6", loc(ngf, s), ngf.short, f"`{norm(s)[:40]}` in null_grad happens only for internal callers", ok,
                f"guarded by the private flag {private}" if ok else
